@@ -63,6 +63,18 @@ impl Group for AuthGroup {
             v.push(Case { lines: vec![line("conn", &exp, false, &[w[..k].to_vec()])] });
             v.push(Case { lines: vec![line("v", &exp, true, &[w[..k].to_vec()])] });
         }
+        // a pause of 1 ms .. 40 s at every cut of a valid preamble, and junk / pause / the right preamble (the bytes are
+        // what counts, not when they arrive)
+        for k in 1..w.len() {
+            for ms in [1u64, 1500, 2500, 11000, 40000] {
+                if ms != 2500 && k % 5 != 0 { continue; }
+                v.push(Case { lines: vec![format!("auth v {} 0 {} ~{ms} {}", hex(&exp), hex_compact(&w[..k]), hex_compact(&w[k..]))] });
+            }
+        }
+        for k in [1usize, 7, 31] {
+            let mut junk = vec![0x5au8; k]; junk.extend_from_slice(&w);
+            v.push(Case { lines: vec![format!("auth conn {} 0 {} ~2500 {}", hex(&exp), hex_compact(&junk[..k]), hex_compact(&junk[k..]))] });
+        }
         // declared padding lengths at the boundaries of every plausible buffer size (a chunked skip loop goes wrong there)
         let mut bl: Vec<usize> = boundary_lens(if tier == "thorough" { &[512, 1000, 1024, 1460, 2048, 4096, 8192, 16384, 32768] } else { &[4096, 8192, 16384, 32768] });
         for j in 0..16 { for d in [-1i64, 0, 1] { let x = (1i64 << j) + d; if x >= 0 && x <= 65535 { bl.push(x as usize); } } }
@@ -139,6 +151,12 @@ impl Group for AuthGroup {
         let chunks = cut(rng, &w);
         let kind = if rng.chance(1, 2) { "conn" } else { "v" };
         let eof = kind == "v" && rng.chance(1, 2);
+        if chunks.len() >= 2 && rng.chance(1, 5) {
+            // the same with pauses between some of the chunks
+            let mut toks: Vec<String> = vec![];
+            for (i, c) in chunks.iter().enumerate() { if i > 0 && rng.chance(1, 2) { toks.push(format!("~{}", rng.pick(&[1u64, 900, 2100, 5000, 21000, 61000]))); } toks.push(hex_compact(c)); }
+            return Case { lines: vec![format!("auth {kind} {} {} {}", hex(&exp), eof as u8, toks.join(" "))] };
+        }
         if rng.chance(1, 8) {
             // the same through the configuration step: password in, digest derived by the code
             let pw = *rng.pick(PASSWORDS);
@@ -156,10 +174,17 @@ impl Group for AuthGroup {
         let rt = runtime();
         let mut out = Outcome::default();
         rt.block_on(async {
+            let mut stalls: Vec<(usize, u64)> = vec![];
             for l in &case.lines {
                 let toks: Vec<&str> = l.split_whitespace().collect();
                 let (kind, exp, eof, chunks) = match toks.as_slice() {
-                    ["auth", kind, exp, eof, chunks @ ..] => (*kind, unhex(exp), *eof == "1", chunks.iter().map(|c| unhex(c)).collect::<Option<Vec<_>>>()),
+                    ["auth", kind, exp, eof, chunks @ ..] => {
+                        // stall tokens `~ms` are positions in the chunk list (number of chunks before them)
+                        stalls.clear();
+                        let mut k = 0usize;
+                        for c in chunks.iter() { if let Some(ms) = c.strip_prefix('~') { stalls.push((k, ms.parse::<u64>().unwrap_or(0))); } else { k += 1; } }
+                        (*kind, unhex(exp), *eof == "1", chunks.iter().filter(|c| !c.starts_with('~')).map(|c| unhex(c)).collect::<Option<Vec<_>>>())
+                    }
                     _ => { out.obs.push("bad-op".into()); continue; }
                 };
                 let (Some(exp), Some(chunks)) = (exp, chunks) else { out.obs.push("bad-op".into()); continue; };
@@ -176,11 +201,28 @@ impl Group for AuthGroup {
                 };
                 let all: Vec<u8> = chunks.concat();
                 let feed = Arc::new(Mutex::new(FeedState::default()));
-                for c in &chunks { if !c.is_empty() { feed.lock().unwrap().chunks.push_back(c.clone()); } }
-                feed.lock().unwrap().eof = eof;
                 let mut reader = ScriptReader(feed.clone());
                 let factory = Arc::new(anytls_rs::padding::PaddingFactory::new(b"stop=0").unwrap());
-                let r = tokio::time::timeout(std::time::Duration::from_millis(5), anytls_rs::util::authenticate_client(&mut reader, &e32, &factory)).await;
+                // `~ms` tokens between chunks: the bytes so far have arrived, the rest follows ms (virtual) later
+                let r = if stalls.is_empty() {
+                    for c in &chunks { if !c.is_empty() { feed.lock().unwrap().chunks.push_back(c.clone()); } }
+                    feed.lock().unwrap().eof = eof;
+                    tokio::time::timeout(std::time::Duration::from_millis(5), anytls_rs::util::authenticate_client(&mut reader, &e32, &factory)).await
+                } else {
+                    let fut = anytls_rs::util::authenticate_client(&mut reader, &e32, &factory);
+                    tokio::pin!(fut);
+                    let mut done = None;
+                    for (i, c) in chunks.iter().enumerate() {
+                        if !c.is_empty() { feed.lock().unwrap().chunks.push_back(c.clone()); crate::node::wake(&feed); }
+                        let ms = stalls.iter().filter(|(at, _)| *at == i + 1).map(|x| x.1).sum::<u64>();
+                        if ms > 0 && done.is_none() {
+                            tokio::select! { r = &mut fut => { done = Some(r); } _ = tokio::time::sleep(std::time::Duration::from_millis(ms)) => {} }
+                        }
+                    }
+                    feed.lock().unwrap().eof = eof;
+                    crate::node::wake(&feed);
+                    match done { Some(r) => Ok(r), None => tokio::time::timeout(std::time::Duration::from_millis(5), &mut fut).await }
+                };
                 let consumed = feed.lock().unwrap().consumed;
                 let verdict = match &r {
                     Err(_) => "more",
